@@ -497,6 +497,13 @@ func (self *Fork) reset() {
 	self.split_metadata.lastRefresh = time.Time{}
 	self.join_metadata.notRunningSince = time.Time{}
 	self.join_metadata.lastRefresh = time.Time{}
+	// Make sure the next attempt can be told apart from the one which is
+	// being discarded, like Metadata.uncheckedReset does.
+	for _, md := range [...]*Metadata{self.split_metadata, self.join_metadata} {
+		if md.uniquifier != "" {
+			md.uniquifier = makeUniquifier(md.uniquifier)
+		}
+	}
 }
 
 func (self *Fork) resetPartial() error {
